@@ -11,9 +11,11 @@ from common import (Report, ToolError, check_action_coverage, log, run_cases, ru
 import tracecheck
 
 NZ = [1, 3, 255]
-DECOYS_ANY = ["';'", '"&&"', "'||'", '"; vmk 99 0"', "'&& vmk 98 0'", '"|| x"']
+DECOYS_ANY = ["';'", '"&&"', "'||'", '"; vmk 99 0"', "'&& vmk 98 0'", '"|| x"',
+              '"it\'s"', "'a\"b'", '"x\' ; vmk 97 0"', "'y\" && vmk 96 0'", '"`"', "'`;'"]
 DECOY_TEXT = {"';'": ";", '"&&"': "&&", "'||'": "||", '"; vmk 99 0"': "; vmk 99 0", "'&& vmk 98 0'": "&& vmk 98 0",
-              '"|| x"': "|| x", "\\;": ";", "\\&\\&": "&&", "\\|\\|x": "||x"}
+              '"|| x"': "|| x", '"it\'s"': "it's", "'a\"b'": 'a"b', '"x\' ; vmk 97 0"': "x' ; vmk 97 0",
+              "'y\" && vmk 96 0'": 'y" && vmk 96 0', '"`"': "`", "'`;'": "`;", "\\;": ";", "\\&\\&": "&&", "\\|\\|x": "||x"}
 DECOYS_C_ONLY = ["\\;", "\\&\\&"]
 
 
